@@ -14,6 +14,7 @@ import Gzx.Gen.K19
 import Gzx.KernelGuard
 import Gzx.Proofs.K19
 import Gzx.Proofs.GridSampler
+set_option linter.unusedSimpArgs false
 namespace Gzx.Obligations.K19
 open Gzx Gzx.GoM Gzx.K19
 
@@ -44,11 +45,11 @@ theorem k_body1_step (ops : NumOps F) (w h mo : Int) (done : List F) (x y : F) (
   · rw [if_pos hb, if_pos (by simpa [beyondF] using hb)]
   · rw [if_neg hb, if_neg (by simpa [beyondF] using hb)]
     unfold nudgeCoordF
-    simp only [beq_iff_eq]
+    simp only [beq_iff_eq, eq_comm (a := (-1 : Int)), eq_comm (a := w), eq_comm (a := h)]
     by_cases hx1 : ops.toInt x = -1 <;> by_cases hx2 : ops.toInt x = w <;>
       by_cases hy1 : ops.toInt y = -1 <;> by_cases hy2 : ops.toInt y = h <;>
       (try ite_by hx1) <;> (try ite_by hx2) <;> (try ite_by hy1) <;> (try ite_by hy2) <;>
-      simp [setIdxA_at done x _ (y :: rest) _ rfl, setIdxA_at1 done _ y _ rest _ rfl]
+      simp [setIdxA_at done _ _ _ _ rfl, setIdxA_at1 done _ _ _ _ _ rfl]
 
 when_kernel Gzx.Gen.K19.checkAndNudge in
 /-- the first loop stops when `nudged` is down … -/
@@ -78,11 +79,11 @@ theorem k_body2_step (ops : NumOps F) (w h : Int) (pre : List F) (x y : F) (tail
   · rw [if_pos hb, if_pos (by simpa [beyondF] using hb)]
   · rw [if_neg hb, if_neg (by simpa [beyondF] using hb)]
     unfold nudgeCoordF
-    simp only [beq_iff_eq]
+    simp only [beq_iff_eq, eq_comm (a := (-1 : Int)), eq_comm (a := w), eq_comm (a := h)]
     by_cases hx1 : ops.toInt x = -1 <;> by_cases hx2 : ops.toInt x = w <;>
       by_cases hy1 : ops.toInt y = -1 <;> by_cases hy2 : ops.toInt y = h <;>
       (try ite_by hx1) <;> (try ite_by hx2) <;> (try ite_by hy1) <;> (try ite_by hy2) <;>
-      simp [setIdxA_at pre x _ (y :: tail) _ rfl, setIdxA_at1 pre _ y _ tail _ rfl]
+      simp [setIdxA_at pre _ _ _ _ rfl, setIdxA_at1 pre _ _ _ _ _ rfl]
 
 when_kernel Gzx.Gen.K19.checkAndNudge in
 theorem k_body2_down (ops : NumOps F) (w h : Int) (pts : List F) (off : Int) :
